@@ -83,6 +83,9 @@ def build_corpus(tier, seed):
                 sim += b
         real = corpus.real_blocks()
         pairs = []
+    deep = gen.deep_blocks(400 if tier == "quick" else 4000, seed)
+    gstats["deep"] = len(deep)
+    xs += deep
     cat = gen.rule_pattern_blocks()
     gstats["rule_catalogue_blocks"] = len(cat)
     groups["Xcat"] = [{"cmd": "opt", "text": t} for t in cat]
